@@ -36,7 +36,7 @@ echo "== demo WITH the change (must fail)"; run_demo; mut_rc=$?
 mkdir -p $dst
 declare -A out
 for p in $prop "$@"; do
-  o=$(cd /verif && VERIF_REPO=$wt timeout 1500 ./check $p --tier quick 2>&1 | grep -E "^VIOLATION|^KNOWN" | head -4)
+  o=$(cd ${VERIFDIR:-/verif} && VERIF_REPO=$wt timeout 1500 ./check $p --tier quick 2>&1 | grep -E "^VIOLATION|^KNOWN" | head -4)
   echo "[$prop-$i] check $p: ${o:-silent}"
   out[$p]="${o:-silent}"
 done
